@@ -563,6 +563,7 @@ class Splicer:
         self.fn_index = []     # dict(module,key,covered,trusted,tags,line)
         self.modules = modules
         self.uncovered = []
+        self.degrade = {}
 
     def load_macros(self):
         for mod in self.module_names():
@@ -819,8 +820,33 @@ class Splicer:
             rec['trusted_reason'] = spec.trusted
             return
         start_line = len(out.lines) + 1
+        degrade_reason = None
+        if fq in self.degrade:
+            degrade_reason = self.degrade[fq]
+        else:
+            try:
+                body = self.rewrite_body(it, key, ms, spec, fq, mut_self, reserved)
+            except SpliceError as e:
+                degrade_reason = str(e)
+        if degrade_reason is not None:
+            # the proof script (hints / invariants / rewrite anchors) no longer applies to this
+            # function's text: its contract is kept as an *assumption* so that the rest of the crate
+            # can still be checked, and every obligation of the function is reported undischarged
+            out.emit('\n'.join(attrs + ['#[verifier::external_body]', header]), fn=fq, kind='degraded')
+            self.emit_clauses(fq, spec)
+            out.emit('{ unimplemented!() }')
+            rec['degraded'] = degrade_reason
+            rec['gen_start'] = start_line
+            rec['gen_end'] = len(out.lines)
+            return
         out.emit('\n'.join(attrs + spec.attrs + [header]))
         self.emit_clauses(fq, spec)
+        out.emit(body, fn=fq, kind='body', tags=rec['body_tags'], src='%s.rs:%d' % (mod, it.line))
+        rec['gen_start'] = start_line
+        rec['gen_end'] = len(out.lines)
+
+    def rewrite_body(self, it, key, ms, spec, fq, mut_self, reserved):
+        out = self.out
         body = it.body
         for w in reserved:
             bm = code_mask(body)
@@ -844,9 +870,7 @@ class Splicer:
         top.extend(spec.top)
         if top:
             body = '{\n' + '\n'.join(top) + body[1:]
-        out.emit(body, fn=fq, kind='body', tags=rec['body_tags'], src='%s.rs:%d' % (mod, it.line))
-        rec['gen_start'] = start_line
-        rec['gen_end'] = len(out.lines)
+        return body
 
     def emit_clauses(self, fq, spec):
         out = self.out
@@ -870,10 +894,13 @@ def main():
     ap.add_argument('--repo', default='/repo')
     ap.add_argument('--out', required=True)
     ap.add_argument('--modules', default=None)
+    ap.add_argument('--degrade', default=None, help='JSON file {fq: reason}')
     a = ap.parse_args()
     mods = a.modules.split(',') if a.modules else None
     try:
         s = Splicer(a.repo, a.out, mods)
+        if a.degrade:
+            s.degrade = json.load(open(a.degrade))
         s.run()
     except (SpliceError, ScanError) as e:
         print('SPLICE-ERROR: %s' % e)
